@@ -32,6 +32,22 @@ func TestReplay(t *testing.T) {
 	if p := os.Getenv("VERIF_PROP"); p != "" && p != prop {
 		t.Fatalf("trace is for %s, not %s", prop, p)
 	}
+	if Regress != "" {
+		sc, ok := scenarios[Regress]
+		if !ok {
+			t.Fatalf("unknown regression scenario %q", Regress)
+		}
+		w := sc.Run(true)
+		for _, v := range w.Viols {
+			if v.Prop == sc.Prop {
+				fmt.Printf("REPLAY-VIOLATION property=%s key=%s scenario=%s: %s\n", v.Prop, v.Key, Regress, v.Msg)
+				fmt.Println(w.Render())
+				return
+			}
+		}
+		fmt.Printf("REPLAY-OK property=%s scenario=%s\n", prop, Regress)
+		return
+	}
 	f := replayers[prop]
 	if f == nil {
 		t.Fatalf("no replayer for %s", prop)
